@@ -19,6 +19,7 @@ import (
 	"os"
 	"path/filepath"
 	"reflect"
+	"runtime"
 	"runtime/debug"
 	"sort"
 	"strings"
@@ -188,8 +189,15 @@ type countingReaderAt struct {
 }
 
 func (c *countingReaderAt) ReadAt(p []byte, off int64) (int, error) {
-	if atomic.LoadInt32(&c.armed) != 0 && atomic.AddInt64(&c.allow, -1) < 0 {
-		return 0, errors.New("verif: injected storage failure")
+	switch atomic.LoadInt32(&c.armed) {
+	case 1: // permanent: after `allow` more reads every read fails
+		if atomic.AddInt64(&c.allow, -1) < 0 {
+			return 0, errors.New("verif: injected storage failure")
+		}
+	case 2: // transient: exactly the read after `allow` more reads fails, the storage recovers
+		if atomic.AddInt64(&c.allow, -1) == -1 {
+			return 0, errors.New("verif: injected transient storage failure")
+		}
 	}
 	return c.f.ReadAt(p, off)
 }
@@ -395,7 +403,7 @@ func (e *Env) Run(ops []Op) {
 func (e *Env) missing(op *Op) bool {
 	segMu.RLock()
 	defer segMu.RUnlock()
-	needSeg := map[string]bool{"persist": true, "persist_fail": true, "dit_open": true, "close_file": true, "fail_after": true, "fields": true, "dict": true, "contains": true, "dict_close": true,
+	needSeg := map[string]bool{"persist": true, "persist_fail": true, "dit_open": true, "close_file": true, "fail_after": true, "fail_once": true, "fields": true, "dict": true, "contains": true, "dict_close": true,
 		"pl_open": true, "stored": true, "dv_open": true, "match": true, "stats": true, "stats_merge": true, "stats_get": true,
 		"observe": true, "layout": false}
 	if needSeg[op.Op] && e.segs[op.Seg] == nil {
@@ -404,7 +412,7 @@ func (e *Env) missing(op *Op) bool {
 	if op.Op == "stats_merge" && e.segs[op.Seg2] == nil {
 		return true
 	}
-	if op.Op == "merge" {
+	if op.Op == "merge" || op.Op == "merge_fail" {
 		for _, h := range op.In {
 			if e.segs[h] == nil {
 				return true
@@ -434,7 +442,7 @@ func (e *Env) Do(op *Op) {
 		e.doPersist(op)
 	case "load":
 		e.doLoad(op)
-	case "close_file", "fail_after":
+	case "close_file", "fail_after", "fail_once":
 		e.doCloseFile(op)
 	case "def_bm":
 		bm := roaring.New()
@@ -485,6 +493,8 @@ func (e *Env) Do(op *Op) {
 		e.doDitNext(op)
 	case "persist_fail":
 		e.doPersistFail(op)
+	case "merge_fail":
+		e.doMergeFail(op)
 	case "watchdog":
 		e.watchdog = time.Duration(op.Watchdog) * time.Millisecond * time.Duration(watchdogScale())
 		e.emit(M{"ev": "skip", "op": "watchdog"})
@@ -717,7 +727,7 @@ func wrapDest(buf *bytes.Buffer, op *Op) (io.Writer, func() []byte) {
 	if op.Slow {
 		// a slow destination (a pipe, a replica): the call stays inside Write long enough for other calls on
 		// the same object to start and finish meanwhile
-		return &slowWriter{w: buf}, func() []byte { return buf.Bytes() }
+		return &slowWriter{w: buf, yield: op.Buf > 0 && op.Buf < 16}, func() []byte { return buf.Bytes() }
 	}
 	if op.Wrap <= 0 {
 		return buf, func() []byte { return buf.Bytes() }
@@ -734,9 +744,20 @@ func wrapDest(buf *bytes.Buffer, op *Op) (io.Writer, func() []byte) {
 	}
 }
 
-type slowWriter struct{ w io.Writer }
+type slowWriter struct {
+	w     io.Writer
+	yield bool // many tiny writes (merge buffer of 1 byte): yield instead of sleeping
+}
 
 func (s *slowWriter) Write(p []byte) (int, error) {
+	if s.yield {
+		for k := 0; k < 4; k++ {
+			runtime.Gosched()
+		}
+		n, err := s.w.Write(p)
+		runtime.Gosched()
+		return n, err
+	}
 	time.Sleep(3 * time.Millisecond)
 	n, err := s.w.Write(p)
 	time.Sleep(3 * time.Millisecond)
@@ -798,10 +819,14 @@ func (e *Env) doLoad(op *Op) {
 
 func (e *Env) doCloseFile(op *Op) {
 	h := e.seg(op.Seg)
-	if op.Op == "fail_after" && h.cr != nil {
-		// the storage keeps working for op.N more reads, then fails for good
+	if (op.Op == "fail_after" || op.Op == "fail_once") && h.cr != nil {
+		// the storage keeps working for op.N more reads, then fails - for good, or for one read only
 		atomic.StoreInt64(&h.cr.allow, int64(op.N))
-		atomic.StoreInt32(&h.cr.armed, 1)
+		if op.Op == "fail_once" {
+			atomic.StoreInt32(&h.cr.armed, 2)
+		} else {
+			atomic.StoreInt32(&h.cr.armed, 1)
+		}
 	} else if h.file != nil {
 		h.file.Close()
 	}
@@ -1062,8 +1087,19 @@ func (e *Env) doItOpen(op *Op) int {
 func (e *Env) doItReplace(op *Op) {
 	it := e.its[op.It]
 	bm := roaring.New()
-	for _, x := range op.Docs {
-		bm.Add(uint32(x))
+	docs := op.Docs
+	if op.Bm != 0 && e.bms[op.Bm] != nil {
+		// a caller-owned bitmap (def_bm), possibly handed to several iterators: it stays the caller's (C15)
+		bm = e.bms[op.Bm]
+		docs = nil
+		itr := bm.Iterator()
+		for itr.HasNext() {
+			docs = append(docs, int(itr.Next()))
+		}
+	} else {
+		for _, x := range op.Docs {
+			bm.Add(uint32(x))
+		}
 	}
 	var okType bool
 	class := e.call(func() {
@@ -1077,7 +1113,7 @@ func (e *Env) doItReplace(op *Op) {
 	if res["kind"] == "ok" && !okType {
 		res = M{"kind": "notoptimizable"}
 	}
-	e.emit(M{"ev": "it_replace", "it": op.It, "docs": sortedInts(op.Docs), "res": res})
+	e.emit(M{"ev": "it_replace", "it": op.It, "docs": sortedInts(docs), "bm": op.Bm, "res": res})
 }
 
 func postingEv(p segment.Posting, freq, norm, locs bool) M {
@@ -1696,6 +1732,38 @@ func (e *Env) doSameObs(op *Op) {
 
 // doPersistFail persists into a writer that fails after op.N bytes. No claim is attached to
 // the call itself (C12 enumerates those); it exists so that later writes follow a failed one.
+// doMergeFail runs a merge into a destination that fails after op.N bytes (or whose close channel is closed
+// from the start when op.N < 0); the outcome is not an observation - what the abandoned merge leaves behind is
+// observed by the operations that follow (C08, C15)
+func (e *Env) doMergeFail(op *Op) {
+	var segs []segment.Segment
+	var drops []*roaring.Bitmap
+	for i, h := range op.In {
+		segs = append(segs, e.seg(h).seg)
+		var d *DropSpec
+		if i < len(op.Drops) {
+			d = &op.Drops[i]
+		}
+		drops = append(drops, e.bitmapOf(d))
+	}
+	w := &faultWriter{limit: op.N, closeAt: -1}
+	ch := make(chan struct{})
+	if op.N < 0 {
+		w.limit = -1
+		close(ch)
+	}
+	e.call(func() {
+		var m segment.Merger
+		if op.Mode == 0 {
+			m = implCur.Merge(segs, drops, op.Buf)
+		} else {
+			m = implCur.MergeM(segs, drops, op.Buf, op.Mode)
+		}
+		m.WriteTo(w, ch)
+	})
+	e.emit(M{"ev": "skip", "op": "merge_fail"})
+}
+
 func (e *Env) doPersistFail(op *Op) {
 	h := e.seg(op.Seg)
 	w := &faultWriter{limit: op.N, closeAt: -1}
